@@ -779,18 +779,22 @@ avx_rule_accsadubl (OrcCompiler *p, void *user, OrcInstruction *insn)
   //  - the iteration with shift <= 4  must be SSE only (zonking high lane)
   //  - if shift <= 3, we need to shift the whole halves
 
+  // the accumulator is always added to at full width: a VEX.128 add would
+  // clear its upper half, which other accumulating opcodes (accl) may use;
+  // tmp comes out of VEX.128 operations, so its upper half is zero
+
   if (p->loop_shift <= 2) { // <= 32b
     orc_avx_sse_emit_pslldq_imm (p, 16 - (1 << p->loop_shift), src1, tmp);
     orc_avx_sse_emit_pslldq_imm (p, 16 - (1 << p->loop_shift), src2, tmp2);
     orc_avx_sse_emit_psadbw (p, tmp, tmp2, tmp);
-    orc_avx_sse_emit_paddd (p, dest, tmp, dest);
+    orc_avx_emit_paddd (p, dest, tmp, dest);
   } else if (p->loop_shift == 3) {
     orc_avx_sse_emit_psadbw (p, src1, src2, tmp);
     orc_avx_sse_emit_pslldq_imm (p, 8, tmp, tmp); // zonk out the upper garbage
-    orc_avx_sse_emit_paddd (p, dest, tmp, dest);
+    orc_avx_emit_paddd (p, dest, tmp, dest);
   } else if (p->loop_shift == 4) {                // 128b
     orc_avx_sse_emit_psadbw (p, src1, src2, tmp);
-    orc_avx_sse_emit_paddd (p, dest, tmp, dest);
+    orc_avx_emit_paddd (p, dest, tmp, dest);
   } else {
     orc_avx_emit_psadbw (p, src1, src2, tmp);
     orc_avx_emit_paddd (p, dest, tmp, dest);
